@@ -226,4 +226,39 @@ CHECKS = {
         assumptions=["at most 48 requests of one client are outstanding (beyond ~278 the client spins on the full notification socket, which cannot make progress in one thread)",
                      "readability of the event descriptor is demanded only when the server's dispatcher has nothing left to do (deferred notifications are re-sent from the server's loop)"],
     ),
+    "C04": dict(
+        title="IPC server callbacks: accept, created, msg*, closed+, destroyed; nothing touches freed state",
+        level="exploration",
+        design_ref="DESIGN.md section 4, C04",
+        technique="stateful property testing: generated lifecycle histories against a per-connection automaton (accept, created, msg*, closed+, destroyed) under ASan/UBSan, plus a delivery stamp check",
+        level_text="client(s) and server of a real service run in one thread (see C02); generated histories of connects (completed or abandoned half way), client disconnects and abrupt socket "
+                   "shutdowns, requests, server disconnects from outside and from inside every callback, application references held across later ops, closed returning non-zero up to 3 times "
+                   "(re-run through job_add when the case says), refusals, rate-limit changes, list walks, sends on closing connections and service destruction at any point, on both transports; "
+                   "a per-connection automaton checks order, exactly-once destroyed and reference accounting, ASan catches use of freed state, and every message a client receives must carry its own stamp",
+        level_note="trusted: the automaton; a connection the application disconnects from inside connection_created is allowed to skip connection_closed (the library treats it as incomplete and the statement "
+                   "only requires that closed is never invoked without created)",
+        stages=[rnd("life", "c04", 60000, 2500000, essential=["app_ref_outlives_peer", "closed_retry", "destroy_with_live_connections", "disconnect_inside_msg_process", "disconnect_inside_created",
+                                                                "disconnect_inside_closed", "accept_refused", "abrupt_client_close", "list_walk", "rate_limit_change", "connect_abandoned",
+                                                                "destroy_with_retry_job_pending", "shm", "socket", "send_inside_callback", "send_on_closing_connection"])],
+        assumptions=["callbacks only disconnect their own connection (not others) and never destroy the service from inside a callback",
+                     "the 100 ms retry sleeps of the socket transport's connect-on-first-send are skipped (usleep interposed)"],
+    ),
+    "C06": dict(
+        title="IPC: bytes from a peer never corrupt the other side, whatever they say",
+        level="exploration",
+        design_ref="DESIGN.md section 4, C06",
+        technique="structure-aware fuzzing / property testing of hostile peers against an in-process server: handshake byte mutations delivered in pieces, raw request messages with lying length fields; oracle = ASan/UBSan + recv() destination pre-check + msg_process argument bounds + control-client liveness + residue",
+        level_text="a real service runs in-process (see C02) with a well-behaved control client; raw stream sockets deliver prefixes of a valid handshake, requests with id/size/max_msg_size mutated, "
+                   "garbage and oversized tails in generated pieces with server steps in between, then close, half-close or stay silent; an accepted victim client's request channel is driven raw "
+                   "(datagrams / ring chunks of real length 0..4x the negotiated maximum whose header claims an equal, smaller, larger, zero or negative length); every msg_process call is checked against "
+                   "the bytes really sent under the stamped id (size <= sent, size <= maximum, bytes equal), every recv() destination is pre-checked against ASan's shadow, the control client must be "
+                   "answered after the hostile traffic, and descriptors, loop registrations and /dev/shm entries must return to the baseline when the peers are gone",
+        level_note="trusted: the bookkeeping of what was sent; heap residue is not measured (only descriptors, loop registrations and shm entries); a raw peer whose handshake asks for more than 1 MiB "
+                   "is refused by the harness's accept callback (the server would otherwise legitimately allocate what it was asked for)",
+        stages=[rnd("hostile", "c06", 40000, 2000000, essential=["handshake_prefix_then_close", "handshake_split_delivery", "handshake_field_mutated", "handshake_garbage", "handshake_oversized",
+                                                                  "handshake_silent_peer", "hdr_size_larger_than_sent", "hdr_size_smaller_than_sent", "hdr_size_zero_or_negative", "sent_beyond_maximum",
+                                                                  "shorter_than_header", "shm", "socket", "raw_peer_accepted", "victim_dropped_by_server", "honest_message"])],
+        assumptions=["the domain is message contents and handshake bytes; corrupting the shared ring's control words or the notification-byte count is outside the statement's quantifier",
+                     "a clean rejection (dropping the offending connection) is a correct outcome"],
+    ),
 }
